@@ -888,7 +888,15 @@ def _notnone(ctx, r, site, region):
     return r
 
 
-OBS = ['to_array', 'to_array(float)', 'to_array(bool)', 'astype(float)', 'value', 'asarray', 'tolist', 'to_list', 'iter',
+# dtype spellings NumPy accepts for a conversion (JSON name -> object); string/void dtypes are outside the domain
+DTYPES = {'float': float, 'bool': bool, 'int': int, 'np.float64': np.float64, "'float64'": 'float64', "'float'": 'float',
+          'np.float32': np.float32, "'float32'": 'float32', 'np.int64': np.int64, "'int64'": 'int64', 'np.int32': np.int32,
+          'np.bool_': np.bool_, "'bool'": 'bool', 'dtype(float64)': np.dtype('float64'), 'dtype(bool)': np.dtype(bool),
+          'dtype(int64)': np.dtype('int64')}
+DTYPE_NAMES = list(DTYPES)
+
+
+OBS = ['to_array', 'to_array(float)', 'to_array(bool)', 'astype(float)', 'to_array(dtype)', 'to_array(dtype)', 'astype(dtype)', 'astype(dtype)', 'value', 'asarray', 'tolist', 'to_list', 'iter',
        'len', 'shape', 'size', 'vector_size', 'ndim', 'dtype', 'to_flat_array', 'to_flat_array(arr)', 'float', 'int', 'bool',
        'neg', 'abs', 'invert', 'copy', 'nonzero_index', 'nonzero', 'nonzero_keys', 'nonzero_values', 'nonzero_items',
        'positive_index', 'negative_index', 'negative_keys', 'negative_rows', 'has_negatives', 'nonzero_rows',
@@ -908,6 +916,13 @@ def core_observe(ctx, lspec, obs, extra):
     elif obs == 'to_array(float)': fn = lambda: L.to_array(float); want = a.astype(float)
     elif obs == 'to_array(bool)': fn = lambda: L.to_array(dtype=bool); want = a.astype(bool)
     elif obs == 'astype(float)': fn = lambda: L.astype(float); want = a.astype(float)
+    elif obs in ('to_array(dtype)', 'astype(dtype)'):
+        dt = DTYPES[extra['dtype']]
+        region += f',dtype={extra["dtype"]}'
+        if obs == 'astype(dtype)': fn = lambda: L.astype(dt)
+        elif extra.get('kw'): fn = lambda: L.to_array(dtype=dt)
+        else: fn = lambda: L.to_array(dt)
+        want = a.astype(dt)
     elif obs == 'value': fn = lambda: L.value; want = a
     elif obs == 'asarray': fn = lambda: np.asarray(L); want = a
     elif obs in ('tolist', 'to_list'):
@@ -1002,8 +1017,8 @@ def core_observe(ctx, lspec, obs, extra):
     d = differs(got, want, exact_shape=exact)
     if d:
         ctx.fail(f'{site}|{region}|{d}', f'{obs} of {a.tolist()} ({extra}): got {describe(r)} want {np.asarray(want).tolist()}')
-    if obs in ('to_array', 'value', 'astype(float)', 'to_array(float)', 'to_array(bool)') and isinstance(r, np.ndarray) and r.dtype != want.dtype:
-        ctx.fail(f'{site}|{region}|dtype', f'{obs}: dtype {r.dtype}, expected {want.dtype}')
+    if obs in ('to_array', 'value', 'astype(float)', 'to_array(float)', 'to_array(bool)', 'to_array(dtype)', 'astype(dtype)') and (not isinstance(r, np.ndarray) or r.dtype != want.dtype):
+        ctx.fail(f'{site}|{region}|dtype', f'{obs}: got {type(r).__name__} of dtype {getattr(r, "dtype", None)}, expected ndarray of {want.dtype}')
     unchanged(ctx, L, a, None, site, region, 'observed')
     if obs == 'copy':
         if r is L or (two and any(x is y for x in r.rows for y in L.rows)) or (not two and r.set is L.set):
@@ -1024,6 +1039,8 @@ def prop_observe(ch, ctx):
         same = ch.bool('O.same')
         ov = list(lv) if same and dchar(ok) != 'i' else draw_vals(ch, 'O.vals', dchar(ok), nelem(ls))
         extra = {'k': ok, 's': ls, 'v': ov}
+    elif obs in ('to_array(dtype)', 'astype(dtype)'):
+        extra = {'dtype': ch.choice('dtype', DTYPE_NAMES), 'kw': ch.bool('kw')}
     elif obs == 'sum_of':
         n = ls[-1]
         if ch.bool('idx.list'):
@@ -1516,6 +1533,11 @@ def prop_history(ch, ctx):
             if d: ctx.fail(f'{site}|{region}|{d}', f'step {step}: {a.tolist()}[{ispec}]: got {describe(r)} want {a[ni].tolist()}')
             d = differs(T.to_array(), a, exact_shape=True)
             if d: ctx.fail(f'h.to_array|L={tk}|{d}', f'step {step}: to_array {T.to_array().tolist()} mirror {a.tolist()}')
+            dtn = ch.choice(f'{t}.dtype', DTYPE_NAMES)
+            out = ctx.call('h.to_array(dtype)', lambda: T.astype(DTYPES[dtn]) if step % 2 else T.to_array(DTYPES[dtn]), region=f'L={tk},dtype={dtn}')
+            wd = a.astype(DTYPES[dtn])
+            if not isinstance(out, np.ndarray) or out.dtype != wd.dtype or differs(out, wd, exact_shape=True):
+                ctx.fail(f'h.to_array(dtype)|L={tk},dtype={dtn}|mismatch', f'step {step}: conversion to {dtn}: got {describe(out)} want {wd.dtype} {wd.tolist()}')
             # conversion into a caller-supplied buffer that still holds the previous conversion (or junk)
             buf = pool.bufs.get(id(T))
             if buf is None or buf.size != a.size: buf = np.full(a.size, 7.0)
@@ -1696,7 +1718,23 @@ def log_reduce(args):
     return spec_log('L', ls) + [['method', method], ['axis', axis], ['keepdims', keepdims], ['how', how]]
 
 
-EXH_ENGINES = [('binop', exh_cases_binop, core_binop, log_binop),
+def exh_cases_convert(max_elems, blocks):
+    for lk in SPARSE:
+        for ls in exh_specs(lk, max_elems):
+            if not blocks.mine(): continue
+            for obs in ('to_array(dtype)', 'astype(dtype)'):
+                for name in DTYPE_NAMES:
+                    for kw in ((False, True) if obs == 'to_array(dtype)' else (False,)):
+                        yield (ls, obs, {'dtype': name, 'kw': kw})
+
+
+def log_convert(args):
+    ls, obs, extra = args
+    return spec_log('L', ls) + [['obs', obs], ['dtype', extra['dtype']], ['kw', extra['kw']]]
+
+
+EXH_ENGINES = [('observe', exh_cases_convert, core_observe, log_convert),
+               ('binop', exh_cases_binop, core_binop, log_binop),
                ('getitem', exh_cases_getitem, core_getitem, log_getitem),
                ('setitem', exh_cases_setitem, core_setitem, log_setitem),
                ('reduce', exh_cases_reduce, core_reduce, log_reduce)]
